@@ -451,6 +451,9 @@ func c05Alphabet() []c05Op {
 	for _, pq := range [][2]string{{"a", "b"}, {"a", "c"}, {"b", "a"}, {"c", "a"}, {"a/x", "c"}, {"../a", "b/x"}, {"$ROOT/a", "c"}, {"a", "$ROOT/c"}, {"$ROOT/a/x", "$ROOT/b"}} {
 		ops = append(ops, c05Op{Name: "Symlink", P: pq[0], Q: pq[1]})
 	}
+	for _, pq := range [][2]string{{"b", "c"}, {"a/x", "c"}, {"b", "a"}, {"$ROOT/b", "$ROOT/c"}} {
+		ops = append(ops, c05Op{Name: "HTruncate", P: pq[0], Q: pq[1]}, c05Op{Name: "HChmod", P: pq[0], Q: pq[1]})
+	}
 	for _, g := range []string{"*", "a/*", "*/x", "?", "[ab]", "*/*", "$ROOT/*", "$ROOT/*/x", "a", "[",
 		// patterns without metacharacters that are not in their shortest form, and a directory part written with a trailing separator
 		"a/", "./a", "a//x", "$ROOT/a/", "*/", "a/./*"} {
@@ -534,6 +537,18 @@ func c05RunSFTP(c *Client, op c05Op, root string) c05Out {
 			f, err = c.OpenFile(p, int(op.N))
 		}
 		if err == nil {
+			vals = append(vals, "close="+errClass(f.Close()))
+		}
+	case "HTruncate", "HChmod":
+		// through the handle of a file whose name has been given away meanwhile: open P, rename P to Q, then change the OPEN file
+		var f *File
+		if f, err = c.OpenFile(p, os.O_RDWR); err == nil {
+			vals = append(vals, "rename="+errClass(c.Rename(p, q)))
+			if op.Name == "HTruncate" {
+				vals = append(vals, "truncate="+errClass(f.Truncate(1)))
+			} else {
+				vals = append(vals, "chmod="+errClass(f.Chmod(0o600)))
+			}
 			vals = append(vals, "close="+errClass(f.Close()))
 		}
 	case "Remove":
@@ -624,6 +639,17 @@ func c05RunOS(op c05Op, root string) c05Out {
 			f, err = os.OpenFile(p, int(op.N), 0o666)
 		}
 		if err == nil {
+			vals = append(vals, "close="+errClass(f.Close()))
+		}
+	case "HTruncate", "HChmod":
+		var f *os.File
+		if f, err = os.OpenFile(p, os.O_RDWR, 0); err == nil {
+			vals = append(vals, "rename="+errClass(os.Rename(p, q)))
+			if op.Name == "HTruncate" {
+				vals = append(vals, "truncate="+errClass(f.Truncate(1)))
+			} else {
+				vals = append(vals, "chmod="+errClass(f.Chmod(0o600)))
+			}
 			vals = append(vals, "close="+errClass(f.Close()))
 		}
 	case "Remove", "RemoveDirectory":
